@@ -14,6 +14,8 @@ From PowHsm Require Import Proofs.SrcEquivProtoV1M.
 From PowHsm Require Import Proofs.SrcEquivStateM.
 From PowHsm Require Import Proofs.SrcEquivHeartbeatM.
 From PowHsm Require Import Proofs.SrcEquivParamsProtoM.
+From PowHsm Require Import Proofs.SrcEquivGateM.
+From PowHsm Require Import Proofs.SrcLiftGate.
 Open Scope N_scope.
 
 (* closed check on the generated except-ladders: every v5 handler maps a link error to (flag set, device error) and a timeout to (flag untouched, device error) *)
@@ -283,5 +285,21 @@ Theorem C11_source_parameters_handler_is_model :
          srcm_HSM2ProtocolLedger___get_blockchain_parameters init self request w =
          mres rtuple_pv (op_parameters kind req w).
 Proof. exact (@srcm_parameters_handler_ok). Qed.
+
+(* the whole request path of the source = the model's handle_request on every request and world *)
+Theorem C11_source_whole_request_path_is_model :
+  forall (keccak : bytes -> bytes) (kind : dongle_kind) (init : pm pv)
+           (cm : string -> pv -> list pv -> pr pv) (fuel : nat) (self : pv) 
+           (request : json) (w : world),
+         init_ok kind init ->
+         SrcEquivSignProtoM.tx_oracles_ok cm ->
+         path_oracle_ok cm ->
+         varint_oracle_ok cm ->
+         SrcEquivBlockM.block_oracles_ok keccak cm ->
+         SrcEquivBlockM.keccak_wf keccak ->
+         SrcEquivBlockProtoM.fuel_ok kind fuel w ->
+         srcm_HSM2ProtocolLedger____internal_handle_request fuel cm init self (of_json request) w =
+         mres of_json (handle_request keccak kind V5 request w).
+Proof. exact (@srcm_handle_request_v5_ok). Qed.
 
 Example C11_nonvacuous : True. Proof. exact I. Qed. (* concrete three-request lifetimes closed by vm_compute in Proofs/C11.v, Module Examples *)
